@@ -90,7 +90,7 @@ class Interp:
         self._last_fmt = None
 
     # ================================================================== function execution
-    def exec_function(self, fdef: ast.FunctionDef, args, kwargs=None, loop_specs=None, qualname=None):
+    def exec_function(self, fdef: ast.FunctionDef, args, kwargs=None, loop_specs=None, qualname=None, ghost=None):
         """execute a real function body on symbolic arguments; returns the returned value (NONE if none)"""
         kwargs = kwargs or {}
         env = {}
@@ -106,6 +106,7 @@ class Interp:
                 env[n] = self.eval(defaults[di], {})
         for k, d in zip(params.kwonlyargs, params.kw_defaults):
             env[k.arg] = kwargs[k.arg] if k.arg in kwargs else self.eval(d, {})
+        env.update(ghost or {})       # ghost state of a verification harness (names that no python identifier can take)
         saved = (self.loop_specs, self.loop_counter)
         fors = sorted([n for n in ast.walk(fdef) if isinstance(n, ast.For)], key=lambda n: (n.lineno, n.col_offset))
         # loop ordinals are SYNTACTIC (source order), so a contract stays bound whichever path reaches the loop
@@ -327,6 +328,8 @@ class Interp:
         return env.get(var, NONE)
 
     def _acc_set(self, env, var, val):
+        cur = env.get(var) if "." not in var else None
+        if cur is not None and hasattr(cur, "vf_assign"): cur.vf_assign(val); return
         if "." in var:
             o, a = var.split(".", 1); env[o].attrs[a] = val
         else:
@@ -503,6 +506,14 @@ class Interp:
         if isinstance(it, QList) and not gen.ifs and isinstance(e.elt, ast.Attribute) and e.elt.attr == "id" \
                 and isinstance(e.elt.value, ast.Name) and isinstance(gen.target, ast.Name) and e.elt.value.id == gen.target.id:
             return QIds(it)
+        if isinstance(it, QList) and len(gen.ifs) == 1 and isinstance(e.elt, ast.Name) and isinstance(gen.target, ast.Name) and e.elt.id == gen.target.id:
+            return self.qlist_filter(it, gen, env)
+        if isinstance(it, QList) and not gen.ifs and isinstance(e, ast.GeneratorExp) and isinstance(gen.target, ast.Name):
+            X = z3.Int("x!gen")
+            env2 = dict(env); self.assign(gen.target, QElem(it, X), env2)
+            t = self.formula_of(e.elt, env2)
+            if isinstance(t, bool): t = z3.BoolVal(t)
+            return QBoolGen(it, lambda x, t=t, X=X: z3.substitute(t, (X, x)))
         if isinstance(it, SList) and len(gen.ifs) == 1 and isinstance(e.elt, ast.Name) and isinstance(gen.target, ast.Name) and e.elt.id == gen.target.id \
                 and isinstance(gen.ifs[0], ast.Compare) and isinstance(gen.ifs[0].ops[0], ast.In) and self.world is not None:
             cond = gen.ifs[0]
@@ -519,6 +530,46 @@ class Interp:
             return SList(it.n, elem, f"[{ast.unparse(e.elt)} for {it.name}]", unordered=it.unordered)
         raise Unsupported(f"comprehension over {type(it).__name__}")
 
+    def _compare_formula(self, op, a, b):
+        return self.compare(op, a, b)
+
+    def formula_of(self, e, env):
+        """a boolean expression as a formula (no case split): comparisons of numbers / ids combined with and / or / not"""
+        if isinstance(e, ast.BoolOp):
+            parts = [self.formula_of(v, env) for v in e.values]
+            parts = [z3.BoolVal(x) if isinstance(x, bool) else x for x in parts]
+            return z3.And(parts) if isinstance(e.op, ast.And) else z3.Or(parts)
+        if isinstance(e, ast.UnaryOp) and isinstance(e.op, ast.Not):
+            x = self.formula_of(e.operand, env)
+            return (not x) if isinstance(x, bool) else z3.Not(x)
+        if isinstance(e, ast.Compare) and len(e.ops) == 1:
+            r = self.compare(e.ops[0], self.eval(e.left, env), self.eval(e.comparators[0], env))
+            if isinstance(r, bool) or (z3.is_expr(r) and r.sort() == B): return r
+        raise Unsupported("filter test outside the formula fragment")
+
+    def qlist_filter(self, L, gen, env):
+        """[x for x in L if test(x)] over a symbolic list: the order-preserving sub-list of the elements satisfying the test
+        (semantics of a python filter comprehension, stated as definitional facts about a fresh list; assumption A-LISTCOMP).
+        The fresh list keeps `filter_of` = (L, pos, wit, keep) so that a harness can instantiate the facts by hand."""
+        eng = self.eng
+        X = z3.Int("x!filter")
+        env2 = dict(env); self.assign(gen.target, QElem(L, X), env2)
+        t = self.formula_of(gen.ifs[0], env2)
+        if isinstance(t, bool): t = z3.BoolVal(t)
+        if not (z3.is_expr(t) and t.sort() == B): raise Unsupported("filter test is not a formula of the element")
+        keep = lambda x, t=t: z3.substitute(t, (X, x))
+        k = eng.run.cache["nfilter"] = eng.run.cache.get("nfilter", 0) + 1
+        n = z3.Int(f"filter{k}.len")
+        pos = z3.Function(f"filter{k}.pos", I, I); wit = z3.Function(f"filter{k}.wit", I, I)
+        R = QList(n, lambda p, pos=pos, L=L: L.src(pos(p)), L.idf, f"[{L.name} if ...]")
+        R.filter_of = (L, pos, wit, keep)
+        p_, q_, j_ = z3.Ints("p!f q!f j!f")
+        eng.assume_def(z3.And(n >= 0, n <= L.n))
+        eng.assume_def(z3.ForAll([p_], z3.Implies(z3.And(0 <= p_, p_ < n), z3.And(0 <= pos(p_), pos(p_) < L.n, keep(L.src(pos(p_)))))))
+        eng.assume_def(z3.ForAll([p_, q_], z3.Implies(z3.And(0 <= p_, p_ < q_, q_ < n), pos(p_) < pos(q_))))
+        eng.assume_def(z3.ForAll([j_], z3.Implies(z3.And(0 <= j_, j_ < L.n, keep(L.src(j_))), z3.And(0 <= wit(j_), wit(j_) < n, pos(wit(j_)) == j_))))
+        return R
+
     def ex_Lambda(self, e, env):
         return ("lambda", e, env)
 
@@ -528,7 +579,7 @@ class Interp:
         if v is NONE: return False
         if isinstance(v, PyNum): return self.eng.decide(v.z != 0)
         if isinstance(v, str): return len(v) > 0
-        if isinstance(v, Label): return v.nonempty
+        if isinstance(v, Label): return v.nonempty if isinstance(v.nonempty, bool) else self.eng.decide(v.nonempty)
         if isinstance(v, (list, tuple)): return len(v) > 0
         if isinstance(v, SDict): return len(v.d) > 0
         if isinstance(v, SList): return self.eng.decide(v.n > 0)
@@ -552,8 +603,17 @@ class Interp:
         if isinstance(a, Opt): a = self.resolve_opt(a)
         if isinstance(b, Opt): b = self.resolve_opt(b)
         if isinstance(op, (ast.Is, ast.IsNot)):
+            if isinstance(a, QElem) and isinstance(b, QElem):      # the same element of the universe, whatever python wrapper carries it
+                r = a.j == b.j
+                return r if isinstance(op, ast.Is) else z3.Not(r)
             r = (a is b) or (a is NONE and b is NONE)
             return r if isinstance(op, ast.Is) else not r
+        if hasattr(a, "vf_compare") and isinstance(op, (ast.Eq, ast.NotEq)):
+            r = a.vf_compare(self, b)
+            return r if isinstance(op, ast.Eq) else (not r if isinstance(r, bool) else z3.Not(r))
+        if hasattr(b, "vf_compare") and isinstance(op, (ast.Eq, ast.NotEq)):
+            r = b.vf_compare(self, a)
+            return r if isinstance(op, ast.Eq) else (not r if isinstance(r, bool) else z3.Not(r))
         if isinstance(op, (ast.In, ast.NotIn)):
             r = self.contains(b, a)
             return r if isinstance(op, ast.In) else not r
@@ -664,6 +724,7 @@ class Interp:
     # ================================================================== attribute access
     def getattr(self, o, name):
         if isinstance(o, Opt): o = self.resolve_opt(o)
+        if hasattr(o, "vf_getattr"): return o.vf_getattr(self, name)
         if isinstance(o, Builtin):
             if o.name == "u": return self.units.literal(name)
             return Builtin(f"{o.name}.{name}")
@@ -791,6 +852,7 @@ class Interp:
         return self.world.model_getattr(self, o, name)
 
     def setattr(self, obj, name, v):
+        if hasattr(obj, "vf_setattr"): return obj.vf_setattr(self, name, v)
         if isinstance(obj, ModelObj):
             if self.world is None: raise Unsupported("setattr without world")
             return self.world.model_setattr(self, obj, name, v)
@@ -1112,6 +1174,7 @@ class Interp:
 
     # ================================================================== calls
     def call(self, f, args, kwargs, node=None):
+        if hasattr(f, "vf_invoke"): return f.vf_invoke(self, args, kwargs)
         if isinstance(f, BoundMethod): return self.call_bound(f.recv, f.name, args, kwargs)
         if isinstance(f, Builtin): return self.call_builtin(f.name, args, kwargs)
         if isinstance(f, ClassRef): return self.construct(f.name, args, kwargs)
@@ -1148,6 +1211,7 @@ class Interp:
         raise Unsupported(f"call_method on {type(recv).__name__}")
 
     def call_bound(self, recv, name, args, kwargs):
+        if hasattr(recv, "vf_call"): return recv.vf_call(self, name, args, kwargs)
         if isinstance(recv, (Expl, ExplU)): return self.call_method(recv, name, args, kwargs)
         if isinstance(recv, ModelObj):
             if self.world is None: raise Unsupported("method call without world")
@@ -1498,6 +1562,10 @@ class Interp:
                 a, b = args
                 x, y = (a.z, b.z) if a.is_int and b.is_int else (a.r, b.r)
                 return PyNum(z3.If(x >= y, x, y) if name == "max" else z3.If(x <= y, x, y))
+        if (name == "all" or name == "any") and isinstance(args[0], QBoolGen):
+            g = args[0]; k = self.eng.fresh("k_gen", I)
+            rng = z3.And(0 <= k, k < g.lst.n)
+            return z3.Exists([k], z3.And(rng, g.test(g.lst.src(k)))) if name == "any" else z3.ForAll([k], z3.Implies(rng, g.test(g.lst.src(k))))
         if name == "all" or name == "any":
             items = self.iterate_concrete(args[0])
             ts = [self.truth(x) for x in items]
@@ -1579,6 +1647,7 @@ class Interp:
     def equiv(self, got, want, name):
         """emit obligations `got == want` on the views (want may be an ExplU / spec value)"""
         eng = self.eng
+        if hasattr(want, "vf_equiv"): return want.vf_equiv(self, got, name)
         if isinstance(want, KDict):
             if not isinstance(got, KDict): eng.oblige(f"{name}/kind", False); return
             KK = z3.Int("key!")      # skolem key
